@@ -46,6 +46,15 @@ def case_strategy(depth):
 
 
 # ------------------------------------------------------------------------------------------------- positions
+def _plain_optional(shape):
+    """Optional[T] proper (a two-member Union with None): documented to become an option defaulting to None when it has no default, so
+    it is not a required key.  Union[A, B, None] and Literal[..., None] without default stay required."""
+    import typing
+    tp = G.to_type(shape)
+    args = typing.get_args(tp)
+    return typing.get_origin(tp) is typing.Union and len(args) == 2 and type(None) in args
+
+
 def positions(shape, value, path):
     """yield (path, kind, required_keys) for every mapping inside ``value`` whose keys the parser defines.
     path is a list of steps: str key | int index; kind in dc / spec / init_args"""
@@ -66,7 +75,7 @@ def positions(shape, value, path):
         for kk, x in value.items():
             yield from positions(shape[1], x, path + [kk])
     elif k == "dc" and isinstance(value, dict):
-        req = [f[0] for f in shape[2] if not f[2]]
+        req = [f[0] for f in shape[2] if not f[2] and not _plain_optional(f[1])]
         yield (path, "dc", req)
         for name, t, _h, _d in shape[2]:
             if name in value:
